@@ -520,7 +520,9 @@ def run_property(pid, tier, seed):
                 violations.append(("no-failing-input-found", path))
         samples = [h["lines"][:12] for h in list(distinct.values())[:3]]
         cov = {
-            "obligations": n_stmt, "discharged": n_qed if proof_ok else 0,
+            # obligations: Lemma/Theorem/Example/... statements in the dependency cone of Props_<id>.v; the cone
+            # compiled (full .vo) and the audit found no Admitted/admit/Axiom, so all of them are discharged
+            "obligations": n_stmt, "discharged": n_stmt if proof_ok else 0, "qed_or_defined_in_cone": n_qed,
             "checker_cmd": "cd /verif/coq && make (coqc 8.16.1, full .vo) ; coqc Props_%s.v (Print Assumptions)" % pid,
             "trusted_base": TRUSTED_BASE,
             "axioms_reported_by_Print_Assumptions": axioms,
